@@ -164,9 +164,12 @@ def run_case(ctx, i, rng):
     if samples is None:
         samples = ctx.cache["samples"] = [(p, t) for p, t in free_samples() if len(t) < 20000]
     incremental = rng.random() < 0.8
+    astral = rng.random() < 0.05  # separate class: non-BMP characters, positions sent in UTF-16 code units as the protocol prescribes
     brk_kinds = rng.choice([["\n"], ["\r\n"], ["\n", "\r\n"], ["\n", "\r\n", "\r"], ["\r"]])
     file_brk = rng.choice(["\n", "\r\n"])
     init = gen_initial(rng, samples)
+    if astral:
+        init = "".join((c + "😀" if c == "=" and rng.random() < 0.5 else c) for c in init) or "x = '😀'\n"
     disk = init.replace("\n", file_brk)
     name = rng.choice(["doc.f90", "doc.F90", "sub/doc.f95"])
     with H.Workspace({name: disk}) as ws:
@@ -216,14 +219,31 @@ def run_case(ctx, i, rng):
                 changes.append(ch)
                 work = apply_ref(work, ch)
             history.append(changes)
-            ev = srv.did_change(uri, changes)
+            wire = changes
+            if astral:
+                wire = []
+                tmp = client
+                for ch_ in changes:
+                    if ch_.get("range") is not None:
+                        ls_ = lines_of(tmp)
+
+                        def u16(pos):
+                            pre = ls_[pos["line"]][:pos["character"]]
+                            return {"line": pos["line"], "character": len(pre.encode("utf-16-le")) // 2}
+                        wire.append(dict(ch_, range={"start": u16(ch_["range"]["start"]), "end": u16(ch_["range"]["end"])}))
+                    else:
+                        wire.append(ch_)
+                    tmp = apply_ref(tmp, ch_)
+            ev = srv.did_change(uri, wire)
             client = work
             res.count("evaluations", len(changes))
             res.count("notifications")
             res.kind("sync:" + ("incremental" if incremental else "full"))
+            if astral:
+                res.kind("class:astral")
             for e in ev:
                 if e[0] == "notif" and e[1] == "window/showMessage" and "Could not apply" in str(e[2].get("message")):
-                    res.violation("change:rejected", "server could not apply an in-range change: " + str(e[2].get("message")),
+                    res.violation("astral:utf16-columns-after-non-bmp-character" if astral else "change:rejected", "server could not apply an in-range change: " + str(e[2].get("message")),
                                   {"initial": disk, "history": history})
                     return res
             got = srv.lines_of(path)
@@ -233,7 +253,9 @@ def run_case(ctx, i, rng):
                 # classify by the shape of the last notification's changes
                 last = changes[-1]
                 t = last["text"]
-                if last.get("range") is None:
+                if astral:
+                    key = "astral:utf16-columns-after-non-bmp-character"
+                elif last.get("range") is None:
                     key = "full-sync:text-mismatch"
                 elif t[-1:] in ("\n", "\r"):
                     key = "insert-ending-in-linebreak:line-count" if len(got) != len(want) else "insert-ending-in-linebreak:content"
